@@ -579,6 +579,13 @@ CUSTOM_INIT_WITH_EXT_ORDERED = CUSTOM_INIT_WITH_EXT.replace(
 assert CUSTOM_INIT_WITH_EXT_ORDERED != CUSTOM_INIT_WITH_EXT
 
 
+# from fix 3849cfe on the custom OBSERVABLE builder recomputes the deterministic id after adding the extension:
+# one more call of self._generate_id() (already in the model: InvalidValueError / ValueError, huge-integer site)
+CUSTOM_INIT_WITH_EXT_REGEN = CUSTOM_INIT_WITH_EXT_ORDERED + (
+    "\n    if kwargs.get('id') is None:\n        id_ = self._generate_id()\n        if id_ is not None:\n"
+    "            self._inner['id'] = id_")
+
+
 def pre_for_custom(src, with_extension, user_init):
     """prehook for a class built by stix2.custom around a user class"""
     if src is None or user_init:
@@ -592,7 +599,7 @@ def pre_for_custom(src, with_extension, user_init):
     text = "\n".join(ast.unparse(b) for b in fn.body)
     if text == CUSTOM_INIT_PLAIN:
         return "(PreCustom false)"
-    if text in (CUSTOM_INIT_WITH_EXT, CUSTOM_INIT_WITH_EXT_ORDERED):
+    if text in (CUSTOM_INIT_WITH_EXT, CUSTOM_INIT_WITH_EXT_ORDERED, CUSTOM_INIT_WITH_EXT_REGEN):
         return "(PreCustom %s)" % ("true" if with_extension else "false")
     return "PreUnknown"
 
